@@ -81,6 +81,7 @@ static void run_case(std::vector<vh::u64> const& a, std::vector<vh::u64>& out)
     std::deque<Rec> fifo;
     std::map<long, std::byte*> base; // node index -> pointer of its first grant (logical position 0)
     unsigned char tag = 1;
+    size_t unc = 0; // records finished but not yet committed (they are abandoned by a shrink that takes effect)
     size_t i = 7;
     auto counts_ok = [&] { return g_node_new == static_cast<long>(g_maps.size()) && g_node_del == static_cast<long>(g_unmaps.size()); };
     while (i < a.size())
@@ -96,18 +97,19 @@ static void run_case(std::vector<vh::u64> const& a, std::vector<vh::u64>& out)
         if (kind == 1)
         {
           long node = static_cast<long>(g_maps.size()) - 1;
+          if (!base.count(node)) unc = 0; // a new node: _handle_full_queue committed the old one
           if (!base.count(node)) base[node] = p;
           off = static_cast<vh::u64>(p - base[node]);
           std::memset(p, tag, n);
           fifo.push_back({n, tag}); tag = static_cast<unsigned char>(tag == 255 ? 1 : tag + 1);
           q.finish_write(static_cast<size_t>(n));
-          if (c) q.commit_write();
+          if (c) { q.commit_write(); unc = 0; } else ++unc;
         }
         out.push_back(kind); out.push_back(off); out.push_back(q.producer_capacity()); out.push_back(g_maps.size());
         if (kind == 1 && off + n > 2 * q.producer_capacity()) out.push_back(MARK_OFFSET);
         if (!counts_ok()) out.push_back(MARK_COUNT);
       }
-      else if (op == 1) { q.commit_write(); i += 1; }
+      else if (op == 1) { q.commit_write(); unc = 0; i += 1; }
       else if (op == 2)
       {
         i += 1;
@@ -135,7 +137,9 @@ static void run_case(std::vector<vh::u64> const& a, std::vector<vh::u64>& out)
       else if (op == 4) { out.push_back(q.empty() ? 1 : 0); i += 1; }
       else if (op == 5 && i + 1 < a.size())
       {
+        size_t const before = g_maps.size();
         q.shrink(static_cast<size_t>(a[i + 1])); i += 2;
+        if (g_maps.size() != before) { while (unc > 0 && !fifo.empty()) { fifo.pop_back(); --unc; } unc = 0; }
         out.push_back(q.producer_capacity()); out.push_back(g_maps.size());
         if (!counts_ok()) out.push_back(MARK_COUNT);
       }
